@@ -226,6 +226,10 @@ pub fn parse_bounds_list(s: &str) -> Result<Vec<BoundOrFiller>> {
             } else if w0 == '}' && !inside_bound {
                 bail!("Field format error: missing opening parenthesis",);
             } else if w0 == '{' {
+                if inside_bound {
+                    bail!("Field format error: opening parenthesis inside a bound");
+                }
+
                 // starting a new bound
                 inside_bound = true;
 
